@@ -327,7 +327,7 @@ class Shapes:
             return self._end(e.value, depth + 1)
         if isinstance(e, ast.Call) and isinstance(e.func, ast.Name) and e.func.id == "str" and len(e.args) == 1:
             return self._endpoint(e.args[0], depth + 1)
-        return None
+        return self._end(e, depth + 1)  # a helper may take the module itself
 
     def _end(self, e: ast.expr, depth: int = 0):
         if depth > 6:
@@ -358,7 +358,41 @@ class Shapes:
                 fn = single_value(self.view, fn)  # layer_of = mapping.get_layer_for_module_name
             if isinstance(fn, ast.Attribute) and fn.attr == LOOKUP:
                 return e.args[0] if e.args else e.keywords[0].value
+            # a helper that was not inlined and returns the layer of its argument
+            if self._is_layer_helper(e):
+                return e.args[0] if e.args else e.keywords[0].value
         return None
+
+    def _is_layer_helper(self, call: ast.Call) -> bool:
+        if self.depth > 3:
+            return False
+        callee = self._resolve_callee(call)
+        if callee is None:
+            return False
+        key = ("layerfn", callee.fq)
+        if key not in self._summaries:
+            self._summaries[key] = False
+            params = callee.param_names
+            if callee.cls is not None and callee.outer is None and not callee.is_staticmethod and params:
+                params = params[1:]
+            if len(params) == 1:
+                v = dview(self.repo, callee, self.recv, self.allow, tag="shape")
+                sub = Shapes(self.repo, self.T, v, {}, self.recv, self.allow, self.depth + 1)
+                rets = [n for n in all_nodes(v) if isinstance(n, ast.Return) and n.value is not None and not (isinstance(n.value, ast.Constant) and n.value.value is None)]
+                ok = bool(rets)
+                for r in rets:
+                    a = sub._is_lookup(r.value)
+                    if a is None:
+                        ok = False
+                        break
+                    a = single_value(v, a)
+                    base = a.value if isinstance(a, ast.Attribute) and a.attr in ("identifier", "name") else a
+                    base = single_value(v, base)
+                    if not (isinstance(base, ast.Name) and base.id == params[0]):
+                        ok = False
+                        break
+                self._summaries[key] = ok
+        return bool(self._summaries[key])
 
     def same_layer_atom(self, e: ast.expr):
         """Formula for `layer(X[0]) == layer(X[1])` comparisons: ('SAME:<X>', positive?) else None."""
@@ -536,6 +570,22 @@ class Shapes:
         for pid in ids:
             if implies(f, f_not(atom(f"SAME:{pid}"))) and f"SAME:{pid}" in same:
                 res = True
+        if res is False and not same:
+            # some comparison of function results computed from the pair guards the addition: possibly a layer test in disguise
+            base_ids = {i for i in ids if not i.startswith("(")} | {z.strip() for i in ids if i.startswith("(") for z in i.strip("()").split(",")}
+            for c, _p in cs:
+                c2 = single_value(self.view, c) if isinstance(c, ast.Name) else c
+                for x in ast.walk(c2):
+                    if isinstance(x, ast.Compare) and any(isinstance(y, ast.Call) for y in ast.walk(x)):
+                        mentioned = {z.id for z in ast.walk(x) if isinstance(z, ast.Name)}
+                        expanded = set(mentioned)
+                        for nm in mentioned:
+                            v = single_value(self.view, ast.Name(id=nm, ctx=ast.Load()))
+                            expanded |= {z.id for z in ast.walk(v) if isinstance(z, ast.Name)}
+                        if expanded & base_ids:
+                            res = None
+            if res is None:
+                self.unknown_filters.append(event)
         if res is False:
             # a layer lookup takes part in the guard but the test was not understood
             if same or any(isinstance(x, ast.Call) and isinstance(x.func, ast.Attribute) and x.func.attr == LOOKUP for c, _p in cs for x in ast.walk(single_value(self.view, c) if isinstance(c, ast.Name) else c)) or self._lookup_alias_in(cs):
